@@ -44,6 +44,7 @@ class UnionSquadTarget(DiscreteTarget):
             damage_logic=self.damage_logic,
             preempted_jobs=list(self.preempted_jobs),
             union_squad=self._union_squad,
+            armor=self.armor,
         )
         target.set_state(self.state)
 
